@@ -224,6 +224,7 @@ package exif2
 //@   requires tagPre(ir, t)
 //@   modifies ir.po, stream(ir.reader), ir.buffer.buf, ir.buffer.len, ir.buffer.tag
 //@   ensures ir.buffer.len <= 84 && ir.buffer.len >= old(ir.buffer.len)
+//@   loop 0 invariant 0 <= i && ir.buffer.len <= 84 && ir.buffer.len >= old(ir.buffer.len)
 
 //@ func (*ifdReader).readMakerNotes
 //@   props C01 C02
